@@ -8,10 +8,13 @@ Definition feature_len (r : row) : result Z :=
   match r_start r, r_end r with Some s, Some e => Ok (e - s + 1) | _, _ => Err EType end.
 
 (* ---- sequence ---- *)
+(* pyfaidx.complement_map: ACTGNactgnYRWSKMDVHBXyrwskmdvhbx <-> TGACNtgacnRYWSMKHBDVXrywsmkhbdvx
+   (IUPAC ambiguity codes included; W S N X are their own complement) *)
 Definition comp (c : N) : N :=
   match c with
-  | 65 => 84 | 84 => 65 | 67 => 71 | 71 => 67 | 78 => 78
-  | 97 => 116 | 116 => 97 | 99 => 103 | 103 => 99 | 110 => 110
+  | 65 => 84 | 67 => 71 | 84 => 65 | 71 => 67 | 97 => 116 | 99 => 103 | 116 => 97 | 103 => 99
+  | 89 => 82 | 82 => 89 | 75 => 77 | 77 => 75 | 68 => 72 | 86 => 66 | 72 => 68 | 66 => 86
+  | 121 => 114 | 114 => 121 | 107 => 109 | 109 => 107 | 100 => 104 | 118 => 98 | 104 => 100 | 98 => 118
   | x => x
   end%N.
 Definition revcomp (s : str) : str := rev (map comp s).
